@@ -170,6 +170,11 @@ def closeH (h : HSt) : HSt := { obj := h.obj.close, ver := h.ver }
 
 def closeAllHandles (st : St) : St := { st with hs := st.hs.map fun o => o.map closeH }
 
+def dirtyOther (st : St) (self p : Nat) : Bool :=
+  (st.hs.zipIdx).any fun (o, i) => match o with
+    | some h => i != self && h.obj.path == p && h.dirty
+    | none => false
+
 def hstep (st : St) (ts : List String) : St × String :=
   match ts with
   | op :: hn :: args =>
@@ -194,14 +199,14 @@ def hstep (st : St) (ts : List String) : St × String :=
     | "hopen", [m] => match parseMode m with
       | none => (st, "bad-op")
       | some m =>
-        let h := if h.mode ≥ 0 then closeH h else h
-        let st := upd st h
         if m != .read && otherWriter st hi p then (st, "err busy") else
+        let wasOpen := h.mode ≥ 0
         let r := h.obj.open st.disk m
-        if !r.1 then ({ upd st { h with obj := r.2.2 } with disk := r.2.1 }, "err open") else
+        let h := { h with obj := r.2.2, dirty := false, spent := false, poisoned := if wasOpen then false else h.poisoned }
         let st := { st with disk := r.2.1 }
+        if !r.1 then (upd st h, "err open") else
         let st := if m == .write || m == .append then bumpVer st p else st
-        (upd st { h with obj := r.2.2, ver := st.pver p }, "ok")
+        (upd st { h with ver := st.pver p }, "ok")
     | "hclose", [] => (upd st (closeH h), "ok")
     | "hflush", [] => if h.mode < 0 then (st, "err closed") else (upd st { h with dirty := false }, "ok")
     | wop, [b] =>
@@ -227,28 +232,37 @@ def hstep (st : St) (ts : List String) : St × String :=
             let st := bumpVer st p
             (upd st { h' with dirty := true, ver := st.pver p }, out)
           else (upd st h', out)
-      else if wop == "hfirst" || wop == "hr" then
+      else if wop == "hfirst" then
+        match b.toNat? with
+        | none => (st, "bad-op")
+        | some k =>
+          if dirtyOther st hi p then (st, "err dirty") else
+          let r := h.obj.firstBytes st.disk k
+          let h' := { h with obj := r.2 }
+          let h' := if h.mode ≥ 0 then { h' with dirty := false }
+            else if h'.mode == 0 then { h' with ver := st.pver p } else h'
+          (upd st h', showBytes r.1)
+      else if wop == "hr" then
         match b.toNat? with
         | none => (st, "bad-op")
         | some k =>
           if h.mode ≥ 1 then (st, "err mode") else
-          if wop == "hr" && h.mode < 0 then (st, "err closed") else
+          if h.mode < 0 then (st, "err closed") else
           if pathDirty st p then (st, "err dirty") else
-          if h.poisoned then (st, "err poisoned") else
           if h.spent then (st, "err spent") else
-          if h.mode == 0 && h.ver != st.pver p then (st, "err stale") else
-          let r := if wop == "hfirst" then h.obj.firstBytes st.disk k else h.obj.read k
-          let h' := { h with obj := r.2 }
-          let h' := if h.mode < 0 && h'.mode == 0 then { h' with ver := st.pver p } else h'
-          (upd st h', showBytes r.1)
+          if h.ver != st.pver p then (st, "err stale") else
+          let r := h.obj.read k
+          (upd st { h with obj := r.2 }, showBytes r.1)
       else (st, "bad-op")
     | qop, [] =>
       if qop == "hsize" || qop == "hexists" || qop == "hisfile" || qop == "hisdir" || qop == "hmtime" then
-        let dirty := pathDirty st p
-        let h := if dirty then { h with poisoned := true } else h
+        let other := dirtyOther st hi p
+        let h := if h.mode < 0 && other then { h with poisoned := true } else h
         if qop == "hsize" then
           let r := h.obj.size st.disk
-          (upd st { h with obj := r.2 }, if dirty || h.poisoned then "?" else toString r.1)
+          let h' := { h with obj := r.2 }
+          let h' := if h.mode ≥ 0 then { h' with dirty := false } else h'
+          (upd st h', if other || (h.mode < 0 && h.poisoned) then "?" else toString r.1)
         else if qop == "hexists" then
           let r := h.obj.exists st.disk
           (upd st { h with obj := r.2 }, b01 r.1)
@@ -257,24 +271,29 @@ def hstep (st : St) (ts : List String) : St × String :=
           (upd st { h with obj := r.2 }, b01 r.1)
         else
           (upd st { h with obj := h.obj.touch st.disk }, if qop == "hisdir" then "0" else "ok")
-      else if qop == "hcontent" || qop == "htext" || qop == "hlines" then
-        if (qop == "htext" || qop == "hlines") && !h.obj.isText then (st, "err kind") else
-        if h.mode ≥ 1 then (st, "err mode") else
-        if pathDirty st p then (st, "err dirty") else
-        if h.poisoned then (st, "err poisoned") else
-        if h.spent then (st, "err spent") else
-        if h.mode == 0 && h.ver != st.pver p then (st, "err stale") else
-        if (qop == "htext" || qop == "hlines") && h.mode == 0 && (h.obj.file.map hpos).getD 0 != 0 then (st, "err pos") else
+      else if qop == "hcontent" || qop == "htext" then
+        if qop == "htext" && !h.obj.isText then (st, "err kind") else
+        if dirtyOther st hi p then (st, "err dirty") else
         let (out, o') : String × Obj :=
           if qop == "hcontent" then let r := h.obj.content st.disk; (showBytes r.1, r.2)
-          else if qop == "htext" then
+          else
             let r := h.obj.text st.disk
             (match r.1 with | some t => showBytes t | none => "crash read-outside", r.2)
-          else let r := h.obj.lines st.disk; (showLines r.1, r.2)
-        let h' := { h with obj := o' }
-        let h' := if h.mode < 0 && h'.mode == 0 then { h' with ver := st.pver p } else h'
-        let h' := if (qop == "htext" || qop == "hlines") && h'.mode == 0 then { h' with spent := true } else h'
+        let h' := { h with obj := o', poisoned := false }
+        let h' := if h.mode ≥ 0 then { h' with dirty := false }
+          else if h'.mode == 0 then { h' with ver := st.pver p, spent := qop == "htext" } else h'
         (upd st h', out)
+      else if qop == "hlines" then
+        if !h.obj.isText then (st, "err kind") else
+        if h.mode ≥ 1 then (st, "err mode") else
+        if pathDirty st p then (st, "err dirty") else
+        if h.spent then (st, "err spent") else
+        if h.mode == 0 && h.ver != st.pver p then (st, "err stale") else
+        let r := h.obj.lines st.disk
+        let h' := { h with obj := r.2 }
+        let h' := if h.mode < 0 && h'.mode == 0 then { h' with ver := st.pver p } else h'
+        let h' := if h'.mode == 0 then { h' with spent := true } else h'
+        (upd st h', showLines r.1)
       else (st, "bad-op")
     | _, _ => (st, "bad-op")
   | _ => (st, "bad-op")
@@ -283,6 +302,58 @@ def hOps : List String := ["hnew", "hopen", "hclose", "hflush", "hw", "happ", "h
   "hisdir", "hmtime", "hcontent", "hfirst", "hr", "htext", "hlines"]
 
 def obsOps : List String := ["raw", "size", "content", "text", "lines", "exists", "first"]
+
+/-- the remaining operations of `stepOld` -/
+def stepOldRest (st : St) (ts : List String) : St × String :=
+  match ts with
+  | ["xobj", k, m, q, b1, b2] => match parseBytes b1, parseBytes b2 with
+    | some bs1, some bs2 =>
+      if (k != "f" && k != "t") || (m != "w" && m != "a") then (st, "bad-op") else
+      let isT := k == "t"
+      let d0 := st.disk.set 0 none
+      let r := (Obj.new 0 isT).open d0 (if m == "w" then .write else .append)
+      if !r.1 then ({ st with disk := r.2.1 }, "err open") else
+      let wr (d : Disk) (o : Obj) (bs : List UInt8) : Disk × Obj :=
+        if isT then let x := o.twrite d .write bs; (x.2.1, x.2.2) else let x := o.write d bs; (x.2.1, x.2.2)
+      let (d1, o1) := wr r.2.1 r.2.2 bs1
+      let o2 := if q == "size" then (o1.size d1).2 else if q == "exists" then (o1.exists d1).2
+        else if q == "isfile" then (o1.isFile d1).2 else if q == "isdir" || q == "mtime" then o1.touch d1 else o1
+      let (d2, o3) := wr d1 o2 bs2
+      let o4 := o3.close
+      let s := o4.size d2
+      let (txt, o5) : String × Obj :=
+        if isT then
+          let x := s.2.text d2
+          (" " ++ (match x.1 with | some t => showBytes t | none => "crash read-outside"), x.2.close)
+        else ("", s.2)
+      ({ st with disk := d2 }, s!"{s.1}{txt} {showBytes (o5.content d2).1}")
+    | _, _ => (st, "bad-op")
+  | ["xput", api, b] => match parseBytes b with
+    | some bs =>
+      match applyApi (st.disk.set 0 none) api bs with
+      | some d => ({ st with disk := d }, threeViews d)
+      | none => (st, "bad-op")
+    | none => (st, "bad-op")
+  | ["xseq", api1, b1, api2, b2] => match parseBytes b1, parseBytes b2 with
+    | some bs1, some bs2 =>
+      match (applyApi (st.disk.set 0 none) api1 bs1).bind fun d => applyApi d api2 bs2 with
+      | some d => ({ st with disk := d }, threeViews d)
+      | none => (st, "bad-op")
+    | _, _ => (st, "bad-op")
+  | ["xcopy", b] => match parseBytes b with
+    | some bs =>
+      let d := (st.disk.set 0 (some bs)).set 1 none
+      let r := copy d 0 1
+      ({ st with disk := r.2 }, s!"{b01 r.1} {rawStr r.2 1}")
+    | none => (st, "bad-op")
+  | ["xmove", x, b] => match parseBytes b with
+    | some bs =>
+      let st := { st with xdev := x == "1", disk := (st.disk.set 2 none).set 3 none }
+      let d := st.disk.set 0 (some bs)
+      let r := move d 0 2 (cross st 0 2)
+      ({ st with disk := r.2 }, s!"{b01 r.1} {rawStr r.2 2} src={b01 (r.2 0).isSome}")
+    | none => (st, "bad-op")
+  | _ => (st, "bad-op")
 
 def stepOld (st0 : St) (ts : List String) : St × String :=
   -- every operation that is not an operation *on the open session* closes the session first
@@ -409,54 +480,56 @@ def stepOld (st0 : St) (ts : List String) : St × String :=
   | ["xtext", b] => match parseBytes b with
     | some bs => let d := st.disk.set 0 (some bs); ({ st with disk := d }, textStr d 0)
     | none => (st, "bad-op")
-  | ["xobj", k, m, q, b1, b2] => match parseBytes b1, parseBytes b2 with
-    | some bs1, some bs2 =>
-      if (k != "f" && k != "t") || (m != "w" && m != "a") then (st, "bad-op") else
-      let isT := k == "t"
-      let d0 := st.disk.set 0 none
-      let r := (Obj.new 0 isT).open d0 (if m == "w" then .write else .append)
-      if !r.1 then ({ st with disk := r.2.1 }, "err open") else
-      let wr (d : Disk) (o : Obj) (bs : List UInt8) : Disk × Obj :=
-        if isT then let x := o.twrite d .write bs; (x.2.1, x.2.2) else let x := o.write d bs; (x.2.1, x.2.2)
-      let (d1, o1) := wr r.2.1 r.2.2 bs1
-      let o2 := if q == "size" then (o1.size d1).2 else if q == "exists" then (o1.exists d1).2
-        else if q == "isfile" then (o1.isFile d1).2 else if q == "isdir" || q == "mtime" then o1.touch d1 else o1
-      let (d2, o3) := wr d1 o2 bs2
-      let o4 := o3.close
-      let s := o4.size d2
-      let (txt, o5) : String × Obj :=
-        if isT then
-          let x := s.2.text d2
-          (" " ++ (match x.1 with | some t => showBytes t | none => "crash read-outside"), x.2.close)
-        else ("", s.2)
-      ({ st with disk := d2 }, s!"{s.1}{txt} {showBytes (o5.content d2).1}")
-    | _, _ => (st, "bad-op")
-  | ["xput", api, b] => match parseBytes b with
-    | some bs =>
-      match applyApi (st.disk.set 0 none) api bs with
-      | some d => ({ st with disk := d }, threeViews d)
+  | [xop, k, b] =>
+    if xop == "xtwice" || xop == "xputread" || xop == "xreopen" then
+      match parseBytes b with
       | none => (st, "bad-op")
-    | none => (st, "bad-op")
-  | ["xseq", api1, b1, api2, b2] => match parseBytes b1, parseBytes b2 with
-    | some bs1, some bs2 =>
-      match (applyApi (st.disk.set 0 none) api1 bs1).bind fun d => applyApi d api2 bs2 with
-      | some d => ({ st with disk := d }, threeViews d)
-      | none => (st, "bad-op")
-    | _, _ => (st, "bad-op")
-  | ["xcopy", b] => match parseBytes b with
-    | some bs =>
-      let d := (st.disk.set 0 (some bs)).set 1 none
-      let r := copy d 0 1
-      ({ st with disk := r.2 }, s!"{b01 r.1} {rawStr r.2 1}")
-    | none => (st, "bad-op")
-  | ["xmove", x, b] => match parseBytes b with
-    | some bs =>
-      let st := { st with xdev := x == "1", disk := (st.disk.set 2 none).set 3 none }
-      let d := st.disk.set 0 (some bs)
-      let r := move d 0 2 (cross st 0 2)
-      ({ st with disk := r.2 }, s!"{b01 r.1} {rawStr r.2 2} src={b01 (r.2 0).isSome}")
-    | none => (st, "bad-op")
-  | _ => (st, "bad-op")
+      | some bs =>
+        if k != "f" && k != "t" then (st, "bad-op") else
+        let isT := k == "t"
+        let d0 := st.disk.set 0 none
+        let o := Obj.new 0 isT
+        let showT (x : Option (List UInt8)) : String := match x with | some t => showBytes t | none => "crash read-outside"
+        let whole (d : Disk) (o : Obj) : String × Obj :=
+          if isT then let x := o.text d; (showT x.1, x.2) else let x := o.content d; (showBytes x.1, x.2)
+        let wr (d : Disk) (o : Obj) : Disk × Obj :=
+          if isT then let x := o.twrite d .write bs; (x.2.1, x.2.2) else let x := o.put d bs; (x.2.1, x.2.2)
+        if xop == "xtwice" then
+          let d1 := d0.set 0 (some bs)
+          let (r1, o1) := whole d1 o
+          let (r2, o2) := whole d1 o1
+          let f := o2.firstBytes d1 2
+          let (r4, _) := whole d1 f.2
+          ({ st with disk := d1 }, s!"{r1} {r2} {showBytes f.1} {r4}")
+        else if xop == "xputread" then
+          let (d1, o1) := wr d0 o
+          let s1 := o1.size d1
+          let (r2, o2) := whole d1 s1.2
+          let (d2, o3) := wr d1 o2
+          let s3 := o3.size d2
+          ({ st with disk := d2 }, s!"{s1.1} {r2} {s3.1}")
+        else
+          let (d1, o1) := wr d0 o
+          let r := o1.open d1 .read
+          let (r2, _) := whole r.2.1 r.2.2
+          ({ st with disk := r.2.1 }, s!"{b01 r.1} {r2} {rawStr r.2.1 0}")
+    else stepOldRest st [xop, k, b]
+  | [xop, k, b1, b2] =>
+    if xop == "xstale" || xop == "xstalesize" then
+      match parseBytes b1, parseBytes b2 with
+      | some bs1, some bs2 =>
+        if k != "f" && k != "t" then (st, "bad-op") else
+        let isT := k == "t"
+        let d1 := st.disk.set 0 (some bs1)
+        let o1 := ((Obj.new 0 isT).size d1).2
+        let d2 := (tput d1 0 .write bs2).2
+        if xop == "xstalesize" then ({ st with disk := d2 }, toString (o1.size d2).1)
+        else if isT then
+          ({ st with disk := d2 }, match (o1.text d2).1 with | some t => showBytes t | none => "crash read-outside")
+        else ({ st with disk := d2 }, showBytes (o1.content d2).1)
+      | _, _ => (st, "bad-op")
+    else stepOldRest st [xop, k, b1, b2]
+  | _ => stepOldRest st ts
 
 /-- h-operations work on the persistent objects; observations through temporaries leave them alone (and are
     answered `?` / `err dirty` while the path has unflushed writes); every other operation closes them first -/
